@@ -86,6 +86,20 @@ def shard(args):
             for d in range(100):
                 part.seen.add(hash((d, b)))
             part.stat("members")
+        # the same BBAN texts assembled for every other country that admits them, in this very
+        # process (anything remembered per BBAN text would be replayed for the wrong country)
+        for other in bases.partners(country):
+            oc = reg.countries()[other]
+            shared = [b for b in fam if oc.matches(b)][: (97 if tier == "thorough" else 8)]
+            for b in shared:
+                for sig, case, exp, obs in check_member(other, b):
+                    part.violation(sig + " [same BBAN text after another country]", case, exp, obs)
+                for sig, case, exp, obs in check_member(country, b):
+                    part.violation(sig + " [same BBAN text after another country]", case, exp, obs)
+                part["evals"] += 202
+                for d in range(100):
+                    part.seen.add(hash((d, other, b)))
+                part.stat("cross_country_members")
         part.sample({"country": country, "filler": f, "members": fam[:3],
                      "digits": [ri.check_digits(country, b) for b in fam[:3]]})
         part.stat("families")
